@@ -2044,7 +2044,14 @@ class Interp:
                         continue
                     jc = SInt(j).conc()
                     if jc is None:
-                        raise EngineLimit('symbolic store index into concrete list')
+                        # symbolic index into a list of known length: split on its value
+                        for k in range(len(o.items)):
+                            for st2, bb in self.split(st1.fork(), j == k):
+                                if bb:
+                                    o2 = st2.mut(base.addr)
+                                    o2.items[k] = v
+                                    yield st2, NORMAL
+                        continue
                     o2 = st1.mut(base.addr)
                     o2.items[jc] = v
                     yield st1, NORMAL
@@ -2409,6 +2416,28 @@ class Interp:
         if items is None:
             if isinstance(it, SNone) or isinstance(it, (SInt, SBool)):
                 yield st1, ('raise', SExc('TypeError', site=stmt_text(node)))
+                return
+            if spec is None and isinstance(it, Ref) and type(st1.heap[it.addr]).__name__ == 'HPieces':
+                hp = st1.heap[it.addr]
+                # iteration over abstract split pieces: possible when the text provably holds no separator
+                for st2, emp in self.split(st1, hp.empty):
+                    if emp:
+                        yield from self.unroll_for(node, [], 0, st2)
+                        continue
+                    if hp.vchars is not None:
+                        from . import contracts_rt as C
+                        hs = HSplit(SStr(chars=hp.vchars), hp.sepc, None)
+                        for st3, parts in C.split_force(self, hs, st2):
+                            yield from self.unroll_for(node, parts, 0, st3)
+                        continue
+                    chk = z3.Solver()
+                    chk.set('timeout', 3000)
+                    chk.add(*[f for f in st2.pc if not z3.is_quantifier(f)])
+                    chk.add(z3.Contains(hp.text, hp.sep))
+                    if chk.check() == z3.unsat:
+                        yield from self.unroll_for(node, [SStr(expr=hp.text)], 0, st2)
+                    else:
+                        raise EngineLimit('for loop over the pieces of a string of unknown length: %s' % stmt_text(node))
                 return
             if spec is None:
                 if isinstance(it, Ref) and isinstance(st1.heap[it.addr], HSplit):
